@@ -28,6 +28,11 @@ for _p, _t in [
 ]:
     CLAIMED[_p] = dict(cat="proof", sec="DESIGN 4/" + _p, text=_t, note=GEO_NOTE, tech="contract-based deductive verification: VCs generated from the AST of the real source by a symbolic interpreter (tpv), discharged by z3 (nlsat on a sound QF_NRA weakening, cvc5 as second back end)")
 
+CLAIMED["C12"] = dict(cat="proof", sec="DESIGN 4/C12",
+    text="Points/Space against the abstract 'table with named column groups' view: products (symbolic dims), sub-space tests, name slicing, order-sensitive equality; coordinates/from_coordinates round trip, selection by rows x names for every accepted index kind (int, symbolic int, slice, Ellipsis, boolean mask, index tensor) x (name, list, tuple, name-slice), join / row concatenation / repeat / unsqueeze / assignment / arithmetic. Rows, contents and space dimensions are symbolic; the NUMBER of variables is enumerated (<= 3), so the obligations are reported as bounded in that respect.",
+    note="A2, A3 (Counter/OrderedDict/torch indexing models), A9. Bounded in the number of variables of a space.",
+    tech="contract-based deductive verification (schematic in the number of variables): VCs from the real AST, z3")
+
 NA = {
  "C19": "restore fidelity is a property of Lightning's checkpoint / torch.save machinery, the file system and process restarts; no contract on a repo function expresses it (DESIGN 4/C19)",
  "C20": "shift-equivariance / resolution consistency are DFT theorems about torch.fft in complex floating point; a contract on _FourierLayer.forward could only restate them as axioms of an external library (DESIGN 4/C20)",
